@@ -60,7 +60,8 @@ def _bc_side(rng, tag, nfaces, rho, p, gam, allow):
         if ty == "insup":
             d["p"] = float(p)
             if rng.random() < 0.6:
-                d["angle"] = float(np.round(rng.uniform(-180, 180), 1))
+                # axis-aligned directions (0 is a falsy value, -0.0 too; int and float spellings) as often as oblique ones
+                d["angle"] = float(np.round(rng.uniform(-180, 180), 1)) if rng.random() < 0.5 else [0.0, 0, -0.0, 90.0, 90, 180.0, -90.0, -180.0, 270.0, 360.0][int(rng.integers(10))]
     if ty == "outsub":
         d["p"] = float(p * rng.uniform(0.8, 1.2))
     if ty == "dirichlet":
